@@ -46,6 +46,7 @@ inductive Lit where
   | char (v : BitVec 32)
   | bool (b : Bool)
   | str (s : Bytes)
+  | undefined
   | other
   deriving Repr, Inhabited, DecidableEq
 
